@@ -486,8 +486,8 @@ def main(argv):
             nbin = int(100000 * a.scale)
         else:
             cfgs = (a.configs.split(",") if a.configs else ALL_CONFIGS)
-            per = int(1000000 * a.scale)
-            nbin = int(2000000 * a.scale)
+            per = int(2000000 * a.scale)
+            nbin = int(4000000 * a.scale)
         exes = build_many(cfgs)
         # sanity: moduli constants agree with the library (q-1 == MINUS_ONE)
         for c in cfgs:
